@@ -65,7 +65,10 @@ def targets(rng, held):
     t.append('%d K req! %s %d' % (c, rng.choice(NAMES), rng.randrange(8)))
     t.append('%d K addmatch! %s' % (c, hexs(rng.choice(RULES))))
     t.append('%d K rel! %s' % (rng.choice([1, 2, 3]), rng.choice(NAMES)))
-    return rng.sample(t, 3)
+    # three of them per prior state, in rotation (every kind of request comes up about equally often)
+    targets.turn = getattr(targets, 'turn', 0) + 1
+    k = (3 * targets.turn) % len(t)
+    return [t[k], t[(k + 1) % len(t)], t[(k + 2) % len(t)]]
 
 
 def run_script(build, conf, lines):
@@ -101,6 +104,7 @@ def bind_names(out):
 
 def run(ctx):
     rng = random.Random(ctx.seed)
+    targets.turn = ctx.seed          # (the rotation of request kinds starts somewhere else for every seed)
     wd = vlib.scratch()
     violations = []
     try:
